@@ -118,7 +118,7 @@ impl<'a> Runner<'a> {
     }
 
     /// Poll the event stream once; log an event if one is delivered. Returns false on Pending.
-    fn poll_stream(&mut self) -> bool {
+    pub fn poll_stream(&mut self) -> bool {
         if self.ended { return false; }
         let waker = Waker::from(self.flag.clone());
         let mut cx = Context::from_waker(&waker);
